@@ -23,7 +23,8 @@ def run(tier):
     try:
         pairs, n = engine.export_pairs(tier, d)
         out = os.path.join(d, "o.ndjson")
-        env = dict(os.environ, VERIF_SCRATCH=d, VERIF_ATLAS=os.path.join(vf.BUILD, "atlas"), VERIF_CLI_EVERY="60" if tier == "quick" else "6")
+        env = dict(os.environ, VERIF_SCRATCH=d, VERIF_ATLAS=os.path.join(vf.BUILD, "atlas"), VERIF_CLI_EVERY="60" if tier == "quick" else "6",
+                   VERIF_EXPORT_SAMPLE="2" if tier == "quick" else "1")
         p = subprocess.run([b, pairs, out, "16", "export"], stdout=subprocess.PIPE, stderr=subprocess.PIPE, text=True, env=env, timeout=3 * 3600)
         if p.returncode != 0:
             raise vf.Infra("engine export failed: " + p.stderr[-2000:])
